@@ -10,6 +10,12 @@ import (
 // DumpHandlers prints the explored handler models (debugging aid).
 func DumpHandlers(c *Ctx, kind string) {
 	hm := c.handlerModels()[kind]
+	if hm == nil && kind == "leave" {
+		hm = c.leaveModel()
+	}
+	if hm == nil && kind == "refute" {
+		hm = c.refuteModel()
+	}
 	if hm == nil {
 		fmt.Println("no such handler kind", kind)
 		return
